@@ -423,7 +423,13 @@ func (st *StateDB) CreateValidator(name string, operator, coinbase common.Addres
 		return nil
 	}
 
-	st.validatorJournal.append(validatorCreateChange{address: &mainAddress})
+	// getValidator answers nil for a deleted validator that is still in the live map (and possibly in
+	// the index); remember both so that a revert puts them back instead of wiping the address
+	var prevLive *Validator
+	if obj, ok := st.validatorObjects.Load(mainAddress); ok && obj != nil {
+		prevLive = obj.(*Validator)
+	}
+	st.validatorJournal.append(validatorCreateChange{address: &mainAddress, prev: prevLive, indexed: st.validatorIndex.Has(mainAddress)})
 	st.setValidator(newVal)
 	st.incrValidatorsStat(newVal)
 	return newVal
